@@ -45,7 +45,7 @@ TRUSTED = ['ideal authenticated encryption (ciphertext integrity) for every nego
 ASSUMPTIONS = ['fewer than 2^32 packets per key epoch', 'the attacker does not hold the session keys']
 
 EDITS = ['flip-length', 'flip-body', 'flip-padding', 'flip-tag', 'truncate', 'drop', 'duplicate', 'swap',
-         'splice-old', 'splice-reverse', 'short-length-cut', 'short-length-full']
+         'splice-old', 'splice-reverse', 'short-length-cut', 'short-length-full', 'splice-mirror']
 INTEGRITY_ERRORS = ('MACError', 'ProtocolError', 'CompressionError', 'ConnectionLost', 'DisconnectError')
 
 
@@ -73,6 +73,8 @@ class Editor:
         self.held: Optional[bytes] = None
         self.applied: Optional[Dict[str, Any]] = None
         self.cut = False
+        # splice-mirror: (direction) -> the genuine packet the OTHER end sealed under the same sequence number
+        self.mirror: Optional[Any] = None
 
     def __call__(self, direction: str, data: bytes) -> bytes:
         idx = self.count[direction]
@@ -146,6 +148,15 @@ class Editor:
             info['spliced_len'] = len(old)
             self.applied = info
             return old + data
+        if e == 'splice-mirror':
+            # the packet is REPLACED by a genuine packet of the opposite direction that carries the same sequence
+            # number: only the direction-specific keys tell the two apart
+            other = self.mirror(direction) if self.mirror is not None else None
+            if other is None:
+                return data             # the other end has not got that far yet: no edit (case is skipped)
+            info['spliced_len'] = len(other)
+            self.applied = info
+            return other
         if e == 'splice-reverse':
             other = self.history[pair.S2C if direction == pair.C2S else pair.C2S]
             old = other[-1] if other else data
@@ -224,6 +235,15 @@ async def tamper_case(combo: Tuple[str, str, str, str], direction: str, edit: st
         editor = Editor(direction, base + target_after, edit, rng, taglen, length_mode(enc, mac))
         editor.count = {d: len(hub.writes[d]) for d in (pair.C2S, pair.S2C)}
         editor.history = {d: list(hub.writes[d]) for d in (pair.C2S, pair.S2C)}
+        def mirror(d: str) -> Optional[bytes]:
+            snd, oth = (c, s) if d == pair.C2S else (s, c)
+            od = pair.S2C if d == pair.C2S else pair.C2S
+            seq = snd._send_seq                       # not yet advanced: the number of the packet being written
+            ol = pt.sent.get(id(oth), [])
+            nk = max([j for j, (_q, p) in enumerate(ol) if p[:1] == b'\x15'], default=-1)
+            js = [j for j, (q, _p) in enumerate(ol) if q == seq and j > nk and j + 1 < len(editor.history[od])]
+            return editor.history[od][js[-1] + 1] if js else None
+        editor.mirror = mirror
         hub.filter = editor
         window_start_bytes = len(hub.log[direction])
         window_start_pkt = base
@@ -285,9 +305,11 @@ def gen_cases(ctx: Ctx, rng: random.Random, n_combos: Optional[int]) -> List[Tup
     combos = ts.combos(rng, n_combos)
     cases = []
     for i, combo in enumerate(combos):
-        edits = EDITS if ctx.tier == 'thorough' else rng.sample(EDITS[:10], 3) + [rng.choice(EDITS[10:])]
+        edits = EDITS if ctx.tier == 'thorough' else rng.sample(EDITS[:10], 3) + [rng.choice(EDITS[10:12]), EDITS[12]]
         for e in edits:
             d = pair.C2S if rng.random() < 0.5 else pair.S2C
+            if e == 'splice-mirror' and rng.random() < 0.7:
+                d = pair.S2C        # the echoing side is behind the writing side: its numbers have been used already
             cases.append((combo, d, e, rng.randrange(1, 6), rng.randrange(1 << 30)))
     return cases
 
@@ -333,7 +355,8 @@ def correspondence(ctx: Ctx) -> CorrResult:
     res.samples = [{'combo': o['combo'], 'edit': o['applied'], 'impl_dispatched': o['dispatched'],
                     'receiver_exc': o['receiver_exc'], 'model': m} for o, m in list(zip(keep, model))[:3]]
     res.rule = ('one in-flight edit (bit flip in length/body/padding/tag, truncate, drop, duplicate, swap, splice) on '
-                'a packet after NEWKEYS of a real session, per (cipher,mac,compression,kex,direction); distinct = '
+                'a packet after NEWKEYS of a real session, also its replacement by the opposite direction\'s genuine packet of '
+                'the same sequence number, per (cipher,mac,compression,kex,direction); distinct = '
                 'distinct (combination, edit kind, direction)')
     return res
 
